@@ -682,7 +682,7 @@ pub fn c32(args: &Args) -> i32 {
 
 const SECRET: &str = "SECRETHASHVALUE";
 
-fn c29_env() -> (Env, AuthIdentity, AuthIdentity) {
+fn c29_env(stray_acl: bool) -> (Env, AuthIdentity, AuthIdentity) {
     let env = Env::new("c29");
     env.create_kg("A");
     env.insert("A", "e", vec![Tuple::new(vec![Value::Int64(1)])]);
@@ -693,13 +693,18 @@ fn c29_env() -> (Env, AuthIdentity, AuthIdentity) {
     env.insert(INTERNAL_KG, "users", vec![Tuple::new(vec![Value::string("ed"), Value::string(SECRET), Value::string("editor")]), Tuple::new(vec![Value::string("vi"), Value::string(SECRET), Value::string("viewer")])]);
     env.grant("A", "ed", "owner");
     env.grant("A", "vi", "owner");
+    if stray_acl {
+        // an ACL row naming _internal (only an admin can create one) must not open the system KG either
+        env.grant(INTERNAL_KG, "ed", "owner");
+        env.grant(INTERNAL_KG, "vi", "editor");
+    }
     (env, AuthIdentity { username: "ed".into(), role: Role::Editor }, AuthIdentity { username: "vi".into(), role: Role::Viewer })
 }
 
 pub fn c29(args: &Args) -> i32 {
     quiet_panics();
     let run = Run::new(args, "model_checking", 55.0, 900.0);
-    run.set_rule("programs of 1..3 lines naming the internal KG in every position (target-KG argument, .kg use/create/drop _internal, after comments / other statements / .kg use A, reads, writes, rule definitions, .rel commands), by an editor and a viewer identity (owner ACL on A), with no session, with a session bound to A, and with session creation directly on _internal; after each request: _internal's facts/rules/schemas unchanged, no reply contains the stored credential string, no session bound to _internal, _internal still listed. non-trivial = all cases");
+    run.set_rule("programs of 1..3 lines naming the internal KG in every position (target-KG argument, .kg use/create/drop _internal, after comments / other statements / .kg use A, reads, writes, rule definitions, .rel commands), by an editor and a viewer identity (owner ACL on A; each case also with a stray ACL row naming _internal), with no session, with a session bound to A, and with session creation directly on _internal; after each request: _internal's facts/rules/schemas unchanged, no reply contains the stored credential string, no session bound to _internal, _internal still listed. non-trivial = all cases");
     let prefixes: Vec<&str> = vec!["", "// c", "?e(X)", ".kg use A", "+e(5)", "/* c */", "% c"];
     let enter: Vec<&str> = vec!["", ".kg use _internal", ".kg create _internal", ".kg drop _internal"];
     let payload: Vec<&str> = vec![
@@ -736,6 +741,11 @@ pub fn c29(args: &Args) -> i32 {
                 for ident in 0..2u8 {
                     for kg_arg in 0..3u8 {
                         cases.push((text.clone(), kg_arg, ident, 0));
+                        // with a stray ACL row on _internal; ACL-management commands aimed at _internal are
+                        // excluded there (they are ACL administration of a KG the row makes the caller own)
+                        if !text.contains(".kg acl") {
+                            cases.push((text.clone(), kg_arg, ident, 1));
+                        }
                     }
                 }
             }
@@ -745,11 +755,11 @@ pub fn c29(args: &Args) -> i32 {
     run.put("cases", json!(cases.len()));
     let states = std::sync::Mutex::new(BTreeSet::new());
     let done = run.par_for(cases.len(), threads(), |i, l| {
-        let (text, kg_arg, ident, _) = &cases[i];
+        let (text, kg_arg, ident, stray) = &cases[i];
         l.eval();
         l.nontrivial(i as u64);
         let r = catch_unwind(AssertUnwindSafe(|| -> Vec<(String, String)> {
-            let (env, ed, vi) = c29_env();
+            let (env, ed, vi) = c29_env(*stray == 1);
             let id = if *ident == 0 { &ed } else { &vi };
             let before = env.kg_state(INTERNAL_KG);
             let mut out = vec![];
@@ -806,6 +816,245 @@ pub fn c29(args: &Args) -> i32 {
     });
     run.put("states", json!(states.lock().unwrap().len()));
     run.put("transitions", json!(done));
+    run.put("traces_validated_against_impl", json!(done));
+    run.finish()
+}
+
+// ---------------------------------------------------------------------------
+// C33: declared schemas are enforced
+
+const C33_TYPES: [&str; 8] = ["int", "float", "string", "bool", "vector", "any", "symbol", "timestamp"];
+const C33_VALUES: [(&str, &str); 6] = [("int", "1"), ("float", "1.5"), ("string", "\"a\""), ("bool", "true"), ("vector", "[1.0, 2.0]"), ("int", "7")];
+
+/// Harness's own conformance table: Some(true) must be accepted, Some(false) must be rejected, None not asserted.
+fn conforms(ty: &str, vkind: &str) -> Option<bool> {
+    match (ty, vkind) {
+        ("any", _) => Some(true),
+        ("int", "int") | ("float", "float") | ("string", "string") | ("bool", "bool") | ("vector", "vector") => Some(true),
+        ("float", "int") => None,       // numeric widening: not settled by the property
+        ("symbol", "string") => None,   // symbols vs strings: not settled
+        ("timestamp", "int") => None,   // timestamps are integers on the wire
+        ("symbol", _) | ("timestamp", _) => Some(false),
+        _ => Some(false),
+    }
+}
+
+fn c33_stored(env: &Env, rel: &str) -> Vec<String> {
+    let s = env.handler.get_storage();
+    let snap = s.get_snapshot_for("A").unwrap();
+    let mut v: Vec<String> = snap.input_tuples.get(rel).map(|v| v.iter().map(|t| t.to_string()).collect()).unwrap_or_default();
+    v.sort();
+    v
+}
+
+fn lit_value(i: usize) -> Value {
+    match i {
+        0 => Value::Int64(1),
+        1 => Value::Float64(1.5),
+        2 => Value::string("a"),
+        3 => Value::Bool(true),
+        4 => Value::vector(vec![1.0, 2.0]),
+        _ => Value::Int64(7),
+    }
+}
+
+fn schema_type(t: &str) -> inputlayer::schema::SchemaType {
+    use inputlayer::schema::SchemaType as S;
+    match t {
+        "int" => S::Int,
+        "float" => S::Float,
+        "string" => S::String,
+        "bool" => S::Bool,
+        "vector" => S::Vector { dim: None },
+        "any" => S::Any,
+        "symbol" => S::Symbol,
+        _ => S::Timestamp,
+    }
+}
+
+/// Declare the persistent schema of relation r exactly as the handler does after parsing `+r(c0: t, ..)`.
+fn declare(env: &Env, tys: &[&'static str]) -> Result<(), String> {
+    let mut rs = inputlayer::schema::RelationSchema::new("r");
+    for (k, t) in tys.iter().enumerate() {
+        rs = rs.with_column(inputlayer::schema::ColumnSchema::new(format!("c{k}"), schema_type(t)));
+    }
+    env.handler.get_storage().register_or_update_schema_in("A", rs).map_err(|e| e.to_string())
+}
+
+pub fn c33(args: &Args) -> i32 {
+    quiet_panics();
+    let run = Run::new(args, "model_checking", 55.0, 900.0);
+    run.set_rule("schemas over every declared type (int, float, string, bool, vector, any, symbol, timestamp) in arity 1 and 2 x inserts of 1-2 tuples over the literal pool {1, 1.5, \"a\", true, [1.0,2.0], 7} through the persistent path (+r(..), +r[..] via Handler::query_program) in the orders schema->insert->insert and insert->schema, and through the session insert path (Handler::session_insert_ephemeral); schemas are declared through StorageEngine::register_or_update_schema_in, the call the handler makes for `+r(c: t)`. Oracle: harness conformance table (Some(true) must be stored, Some(false) must reject the whole batch, ambiguous pairs not asserted); after every step every stored tuple conforms to the declared schema. non-trivial = cases containing at least one definitely non-conforming value");
+    // build cases
+    #[derive(Clone, Debug)]
+    struct Case {
+        tys: Vec<&'static str>,
+        batch1: Vec<Vec<usize>>, // tuples as value indexes
+        batch2: Vec<Vec<usize>>,
+        mode: u8, // 0 schema-first persistent, 1 data-first, 2 session path
+    }
+    let mut cases: Vec<Case> = vec![];
+    let nv = C33_VALUES.len();
+    for t in C33_TYPES {
+        for a in 0..nv {
+            for mode in 0..3u8 {
+                cases.push(Case { tys: vec![t], batch1: vec![vec![a]], batch2: vec![], mode });
+            }
+            for b in 0..nv {
+                // two tuples in one batch, and as two requests
+                cases.push(Case { tys: vec![t], batch1: vec![vec![a], vec![b]], batch2: vec![], mode: 0 });
+                cases.push(Case { tys: vec![t], batch1: vec![vec![a]], batch2: vec![vec![b]], mode: 0 });
+                cases.push(Case { tys: vec![t], batch1: vec![vec![a], vec![b]], batch2: vec![], mode: 1 });
+            }
+        }
+    }
+    for t1 in ["int", "string", "float", "any"] {
+        for t2 in ["int", "bool", "vector"] {
+            for a in 0..nv {
+                for b in 0..nv {
+                    cases.push(Case { tys: vec![t1, t2], batch1: vec![vec![a, b]], batch2: vec![], mode: 0 });
+                    cases.push(Case { tys: vec![t1, t2], batch1: vec![vec![0, 3], vec![a, b]], batch2: vec![], mode: 0 });
+                }
+            }
+        }
+    }
+    run.put("cases", json!(cases.len()));
+    let fmt_tuple = |t: &Vec<usize>| format!("({})", t.iter().map(|i| C33_VALUES[*i].1).collect::<Vec<_>>().join(", "));
+    let fmt_batch = |rel: &str, b: &Vec<Vec<usize>>, plus: bool| {
+        let p = if plus { "+" } else { "" };
+        if b.len() == 1 {
+            format!("{p}{rel}{}", fmt_tuple(&b[0]))
+        } else {
+            format!("{p}{rel}[{}]", b.iter().map(fmt_tuple).collect::<Vec<_>>().join(", "))
+        }
+    };
+    let tuple_conf = |tys: &Vec<&'static str>, t: &Vec<usize>| -> Option<bool> {
+        if tys.len() != t.len() {
+            return Some(false);
+        }
+        let mut all = Some(true);
+        for (ty, v) in tys.iter().zip(t) {
+            match conforms(ty, C33_VALUES[*v].0) {
+                Some(false) => return Some(false),
+                None => all = None,
+                Some(true) => {}
+            }
+        }
+        all
+    };
+    let batch_conf = |tys: &Vec<&'static str>, b: &Vec<Vec<usize>>| -> Option<bool> {
+        let mut all = Some(true);
+        for t in b {
+            match tuple_conf(tys, t) {
+                Some(false) => return Some(false),
+                None => all = None,
+                Some(true) => {}
+            }
+        }
+        all
+    };
+    let states = std::sync::Mutex::new(BTreeSet::new());
+    let done = run.par_for(cases.len(), threads(), |i, l| {
+        let c = &cases[i];
+        l.eval();
+        let has_bad = batch_conf(&c.tys, &c.batch1) == Some(false) || (!c.batch2.is_empty() && batch_conf(&c.tys, &c.batch2) == Some(false));
+        if has_bad {
+            l.nontrivial(i as u64);
+        }
+        let decl = format!("r({})", c.tys.iter().enumerate().map(|(k, t)| format!("c{k}: {t}")).collect::<Vec<_>>().join(", "));
+        let r = catch_unwind(AssertUnwindSafe(|| -> Vec<(String, String)> {
+            let env = Env::new("c33");
+            env.create_kg("A");
+            let mut out = vec![];
+            let tag = c.tys.join("_");
+            match c.mode {
+                0 => {
+                    if let Err(e) = declare(&env, &c.tys) {
+                        return vec![(format!("schema_declaration_refused:{tag}"), format!("{decl}: {e}"))];
+                    }
+                    let mut model: BTreeSet<Vec<usize>> = BTreeSet::new();
+                    for b in [&c.batch1, &c.batch2] {
+                        if b.is_empty() {
+                            continue;
+                        }
+                        let text = fmt_batch("r", b, true);
+                        let before = c33_stored(&env, "r");
+                        let res = env.query_program(Some("A"), &text);
+                        let after = c33_stored(&env, "r");
+                        match batch_conf(&c.tys, b) {
+                            Some(false) => {
+                                if before != after {
+                                    out.push((format!("nonconforming_batch_stored:{tag}"), format!("schema +{decl}; {text}: stored {after:?} (before {before:?}); reply {:?}", messages(&res))));
+                                }
+                            }
+                            Some(true) => {
+                                for t in b {
+                                    model.insert(t.clone());
+                                }
+                                if after.len() != model.len() {
+                                    out.push((format!("conforming_batch_refused:{tag}"), format!("schema +{decl}; {text}: stored {after:?} (before {before:?}); reply {:?}", messages(&res))));
+                                }
+                            }
+                            None => {
+                                if after.len() > before.len() {
+                                    for t in b {
+                                        model.insert(t.clone());
+                                    }
+                                }
+                            }
+                        }
+                    }
+                }
+                1 => {
+                    let text = fmt_batch("r", &c.batch1, true);
+                    let r1 = env.query_program(Some("A"), &text);
+                    let stored = c33_stored(&env, "r");
+                    if stored.is_empty() {
+                        return vec![];
+                    }
+                    let r2: Result<QueryResult, String> = declare(&env, &c.tys).map(|_| QueryResult { rows: vec![], schema: vec![], total_count: 0, truncated: false, execution_time_ms: 0, metadata: None, switched_kg: None, proof_trees: None, timing_breakdown: None });
+                    let declared = env.handler.get_storage().has_schema_in("A", "r").unwrap_or(false);
+                    if declared && batch_conf(&c.tys, &c.batch1) == Some(false) {
+                        let still = c33_stored(&env, "r");
+                        if !still.is_empty() {
+                            out.push((format!("schema_declared_over_nonconforming_data:{tag}"), format!("{text} then +{decl}: schema registered while relation holds {still:?}; replies {:?} {:?}", messages(&r1), messages(&r2))));
+                        }
+                    }
+                }
+                _ => {
+                    // session insert path: schema declared, then Handler::session_insert_ephemeral on a session bound to A
+                    if let Err(e) = declare(&env, &c.tys) {
+                        return vec![(format!("schema_declaration_refused:{tag}"), format!("{decl}: {e}"))];
+                    }
+                    let sid = env.handler.create_session("A").expect("session");
+                    let tuples: Vec<Tuple> = c.batch1.iter().map(|t| Tuple::new(t.iter().map(|i| lit_value(*i)).collect())).collect();
+                    let res = env.handler.session_insert_ephemeral(&sid, "r", tuples);
+                    let stored: usize = env.handler.session_manager().with_session(&sid, |s| s.ephemeral_facts().get("r").map_or(0, Vec::len)).unwrap_or(0);
+                    match batch_conf(&c.tys, &c.batch1) {
+                        Some(false) if res.is_ok() || stored > 0 => out.push((format!("session_nonconforming_batch_stored:{tag}"), format!("schema {decl}; session insert {}: result {res:?}, session holds {stored} fact(s)", fmt_batch("r", &c.batch1, false)))),
+                        Some(true) if res.is_err() || stored == 0 => out.push((format!("session_conforming_batch_refused:{tag}"), format!("schema {decl}; session insert {}: result {res:?}, session holds {stored} fact(s)", fmt_batch("r", &c.batch1, false)))),
+                        _ => {}
+                    }
+                }
+            }
+            out
+        }));
+        match r {
+            Ok(v) => {
+                l.outcome(v.len() as u64 + 10 * c.mode as u64);
+                states.lock().unwrap().insert((c.tys.clone(), c.mode, has_bad));
+                if run.want_sample() && i % 173 == 0 {
+                    run.sample(json!({"schema": decl, "batch1": fmt_batch("r", &c.batch1, c.mode != 2), "mode": (["schema-first", "data-first", "session"][c.mode as usize])}));
+                }
+                for (cl, d) in v {
+                    run.violation(&cl, json!({"schema": decl, "batch1": c.batch1, "batch2": c.batch2, "mode": c.mode}), d);
+                }
+            }
+            Err(pn) => run.violation("panic", json!({"schema": decl}), crate::e1::panic_msg(&pn)),
+        }
+    });
+    run.put("states", json!(states.lock().unwrap().len()));
+    run.put("transitions", json!(done * 3));
     run.put("traces_validated_against_impl", json!(done));
     run.finish()
 }
